@@ -1,5 +1,6 @@
 """Print the finding keys every built property currently reports (maintenance tool)."""
-import importlib, sys, json
+import importlib, sys, json, os
+sys.path.insert(0, os.path.dirname(os.path.dirname(os.path.abspath(__file__))))
 from olsa.__main__ import Ctx, PROPS
 from olsa import core
 out={}
